@@ -27,6 +27,7 @@ pub fn long_gens() -> Vec<(&'static str, bool, Box<dyn Fn(usize) -> String + Syn
         ("flow-pairs", false, Box::new(|n| format!("[{}]", "a: b, ".repeat(n / 6)))),
         ("nested-seq", true, Box::new(|n| format!("{}a", "- ".repeat(n / 2)))),
         ("nested-qkey", true, Box::new(|n| format!("{}a", "? ".repeat(n / 2)))),
+        ("nested-seq-literal", true, Box::new(|n| { let d = n / 6; format!("{}|\n{}a\n{}b\n", "- ".repeat(d), " ".repeat(2 * d), " ".repeat(2 * d)) })),
         ("anchors", false, Box::new(|n| "- &a x\n- *a\n".repeat(n / 12))),
         ("long-anchor", false, Box::new(|n| format!("&{} x", "a".repeat(n)))),
         ("long-tag", false, Box::new(|n| format!("!{} x", "a".repeat(n)))),
